@@ -59,6 +59,12 @@ Record Msgs (ts : list task) (l : list ev) (later : nat -> Prop) : Prop := {
   m_all : forall k tk, nth_error ts k = Some tk -> unspawned tk -> later k \/ exists e, In e l /\ epay e = msg_of k;
   m_later : forall k, later k -> exists tk, nth_error ts k = Some tk /\ unspawned tk }.
 
+(* In this fragment no timer is ever cancelled: every slot holds a timer until it is popped,
+   and the slot next_wakeup was scheduled for is still there. *)
+Definition NwLive (dr : driver) : Prop := forall w, next_wakeup dr = Some w -> ents_at w (pending dr) <> [].
+Definition AllLive (dr : driver) : Prop := forall d es, In (d, es) (pending dr) -> es <> [].
+Definition Extra (l : N) (dr : driver) : Prop := Snap l dr /\ NwLive dr /\ AllLive dr.
+
 (* at an event boundary; l0, l1: the instants of the last event of module 0 / 1 *)
 Record WInv (ts0 : list task) (later : nat -> Prop) (w : world) : Prop := {
   wi_si : SI (w_fes w);
@@ -67,7 +73,7 @@ Record WInv (ts0 : list task) (later : nat -> Prop) (w : world) : Prop := {
   wi_base : Base ts0 (w_tasks w) (w_owner w) (w_nid w);
   wi_drv : forall m, m < 2 -> exists l, l <= w_now w /\ Inv l (drv_of w m) /\
            Permutation (wakes m (spend (w_fes w))) (scheduled (drv_of w m)) /\
-           Tie (w_tasks w) (w_owner w) (w_nid w) [] m (drv_of w m);
+           Tie (w_tasks w) (w_owner w) (w_nid w) [] m (drv_of w m) /\ Extra l (drv_of w m);
   wi_msgs : Msgs (w_tasks w) (spend (w_fes w)) later }.
 
 (* ---- small facts ---- *)
